@@ -49,6 +49,9 @@ THEOREMS = [
 _LEXFILTER = os.path.join(core.LEAN, "PV", "C10", "LexFilter.lean")   # lexer model builder; imported by PV/C10/Thm.lean
 THEOREMS += ["PV.C10.full_lexer_filter", "PV.C10.softkw_commutes_filter_of_safe", "PV.C10.softkw_commutes_filter",
              "PV.C10.softkw_commutes_filter_failSrc"]
+# end to end on the models (lexer model -> filter -> token conversion -> reference parser PV.Prog.parseProgram,
+# lean/PV/C09/Pipeline.lean): same answer with or without full-lexer; same first lexical error for every source
+THEOREMS += ["PV.C10.feature_tree_invariant", "PV.C10.feature_first_error_invariant", "PV.C10.feature_lex_error_invariant"]
 
 TRUSTED = [
     "Lean 4.33.0 kernel; axioms limited to propext, Classical.choice, Quot.sound",
@@ -65,7 +68,15 @@ TRUSTED = [
 ]
 PARTIAL = [
     "equality of trees and errors between builds is established by running the four builds on the same texts (streams "
-    "parse-*): there is no theorem about the LALRPOP automaton behind the configuration-dependent front ends",
+    "parse-*): there is no theorem about the LALRPOP automaton behind the configuration-dependent front ends. For full-lexer "
+    "the composition IS a theorem at MODEL level: feature_tree_invariant — the pipeline PV.Pipeline.parseText (lexer model with "
+    "the soft-keyword pass, the filter of parse_filtered_tokens, any position-blind token conversion, the reference parser "
+    "PV.Prog.parseProgram) gives the same answer (tree / rejection / first lexical error with kind and offset / panic) in both "
+    "lexer configurations, under the side condition SoftSafe of softkw_commutes_filter; feature_first_error_invariant and "
+    "feature_lex_error_invariant (the first lexical error is the same) hold for EVERY source. Remaining: SoftSafe is not shown "
+    "to hold for every lexer stream (needs the coupling start_of_line / start_of_statement => bracket depth 0); the error a "
+    "REJECTING parser reports (kind, offset) is not modelled by PV.Prog (a recogniser), so \"the error reported is the same\" is "
+    "a theorem for lexical errors only; the reference parser is tied to the LR automaton by the PROG correspondence",
     "full-lexer: the token-level theorems full_lexer_filter / softkw_commutes_filter are about the lexer MODEL (lean/PV/Lexer, tied to "
     "lexer.rs by the C05 correspondence), proved in lean/PV/C10/LexFilter.lean"
     "; softkw_commutes_filter carries the side condition SoftSafe (the token right after a line-initial match/case/type is not a "
